@@ -11,7 +11,7 @@ use std::collections::BTreeSet;
 
 pub struct MatchProp;
 
-pub const PATTERNS: [&str; 24] = [
+pub const PATTERNS: [&str; 27] = [
     "(u ?a)",
     "(b ?a ?b)",
     "(b ?a ?a)",
@@ -36,9 +36,13 @@ pub const PATTERNS: [&str; 24] = [
     "(b (var $0) (var $0))",
     "(b (f $0 $1) ?a)",
     "?a",
+    // two sibling binders
+    "(case ?s $0 ?a $1 ?b)",
+    "(case ?s $0 (h $0) $1 ?b)",
+    "(case (var $2) $0 (f $0 $2) $1 ?b)",
 ];
 
-pub const MULTI: [&str; 23] = [
+pub const MULTI: [&str; 24] = [
     "?s == (b ?a ?c), ?a == (var $0), ?c == (var $1)",
     "?a == (var $0), ?c == (var $1), ?s == (b ?a ?c)",
     "?s == (b ?a ?c), ?a == (h $0), ?c == (f $1 $0)",
@@ -66,6 +70,7 @@ pub const MULTI: [&str; 23] = [
     // slot, one through a pattern slot), the third binds a new variable
     "?a == (var $0), ?b == (u ?z), ?o == (k ?z ?a ?w)",
     "?b == (u ?z), ?a == (var $0), ?o == (k ?a ?z ?w)",
+    "?x == (case ?s $0 ?a $1 ?b), ?a == (h $0)",
 ];
 
 fn spaces(tier: Tier) -> Vec<Space> {
@@ -84,6 +89,8 @@ fn spaces(tier: Tier) -> Vec<Space> {
             Space { alpha: "SELFX", depth: 3 },
             Space { alpha: "TERN", depth: 2 },
             Space { alpha: "TERN", depth: 3 },
+            Space { alpha: "CASE", depth: 2 },
+            Space { alpha: "CASE", depth: 3 },
             Space { alpha: "MICRO", depth: 3 },
             Space { alpha: "A1", depth: 2 },
             Space { alpha: "CORE", depth: 3 },
@@ -103,6 +110,8 @@ fn spaces(tier: Tier) -> Vec<Space> {
             Space { alpha: "SELFX", depth: 3 },
             Space { alpha: "TERN", depth: 2 },
             Space { alpha: "TERN", depth: 3 },
+            Space { alpha: "CASE", depth: 2 },
+            Space { alpha: "CASE", depth: 3 },
             Space { alpha: "CORE", depth: 3 },
             Space { alpha: "A0", depth: 3 },
             Space { alpha: "MICRO", depth: 4 },
@@ -453,7 +462,7 @@ fn run(hist: &[Op], gen_level: u8) -> Result<(Vec<Fail>, u64, u64, u64, u64), St
 
 /// which segments are also matched against the GENERATED multi-pattern pool
 fn gen_level_for(tier: Tier, segname: &str) -> u8 {
-    let small = ["MICRO^2", "SAME^2", "SHARE^2", "TERN^2"];
+    let small = ["MICRO^2", "SAME^2", "SHARE^2", "TERN^2", "CASE^2"];
     let medium = ["SAME^3", "MICRO^3", "CORE^2", "BIND^1"];
     match tier {
         Tier::Quick => {
